@@ -519,7 +519,9 @@ NEUTRALIZERS = [
 
 
 def _explain(kind, recipe, fmt, sym):
-    "-> (list of cause names, residual symptom or None)"
+    """
+    -> (list of cause names, residual symptom or None, simplified recipe)
+    """
     causes = []
     r = recipe
     for name, fn in NEUTRALIZERS:
@@ -532,21 +534,74 @@ def _explain(kind, recipe, fmt, sym):
         r, sym = r2, sym2
         if sym is None:
             break
-    return causes, sym
+    return causes, sym, r
+
+
+def _coarse(code):
+    "symptom code without format, nesting level and message details"
+    if code.startswith('rejected'):
+        return 'rejected-by-parser'
+    if code.startswith('not-equal:'):
+        d = code[len('not-equal:'):].replace('ref.', '')
+        if d.startswith('keytype:'):
+            return 'wrong-type:' + d[len('keytype:'):]
+        if d.startswith('keyvalue:'):
+            return 'wrong-value'
+        return 'wrong-' + d
+    return code
+
+
+def _flat(kt, v):
+    return {'k': 'ipath', 'classname': 'C', 'keys': [('k', kt, v)],
+            'namespace': None, 'host': None}
+
+
+def _localize(kind, recipe, fmt, sym):
+    """
+    Smallest part of a failing recipe that fails on its own: a single
+    non-reference key (innermost first), else one path without its nested
+    references, else the nesting itself.  -> (scope, symptom)
+    """
+    if kind != 'ipath':
+        return 'class-path', sym
+    paths = list(_all_paths(recipe))[::-1]
+    for p in paths:
+        for _n, kt, v in p['keys']:
+            if kt != 'reference':
+                s = _check_fmt('ipath', _flat(kt, v), fmt)
+                if s is not None:
+                    return kt + '-key', s
+    for p in paths:
+        keys = [k for k in p['keys'] if k[1] != 'reference'] or \
+            [('k', 'uint8', 1)]
+        s = _check_fmt('ipath', dict(p, keys=keys), fmt)
+        if s is not None:
+            return 'instance-path-components', s
+    return 'nested-reference', sym
 
 
 def _check_all_formats(ctx, kind, recipe):
+    residual = {}     # (scope, coarse symptom) -> [formats], detail
     for fmt in FORMATS:
         sym = _check_fmt(kind, recipe, fmt)
         if sym is None:
             continue
-        causes, rest = _explain(kind, recipe, fmt, sym)
+        causes, rest, simple = _explain(kind, recipe, fmt, sym)
         for c in causes:
             ctx.fail(c, sym[1])
         if rest is not None:
             # not attributable to a listed cause: a different defect
-            ctx.fail('unexplained:%s:%s' % (fmt, rest[0]),
-                     rest[1] + '\n(original symptom: %s)' % sym[1])
+            scope, lsym = _localize(kind, simple, fmt, rest)
+            ent = residual.setdefault((scope, _coarse(lsym[0])), [[], None])
+            ent[0].append(fmt)
+            ent[1] = ent[1] or (lsym[1] + '\n(in: %s)' % sym[1])
+    for (scope, coarse), (fmts, detail) in sorted(residual.items()):
+        sig = 'unexplained:%s:%s' % (scope, coarse)
+        if not scope.endswith('-key'):
+            # path-level logic is format specific
+            sig += ':' + ('all-formats' if len(fmts) == len(FORMATS)
+                          else '+'.join(fmts))
+        ctx.fail(sig, detail)
     # str() is documented to be the historical format
     p = S.build(recipe)
     with warnings.catch_warnings():
@@ -642,11 +697,19 @@ def canonical_oracle(ctx, ex):
         classes.append('variant:key-order-differs')
     if c1 != c2:
         # which freedom is not normalised?
-        order_only = _variant_order_only(recipe, var)
+        what = 'several-components-together'
         with warnings.catch_warnings():
             warnings.simplefilter('ignore')
-            c4 = S.build(order_only).to_wbem_uri(format='canonical')
-        what = 'keybinding-order' if c4 != c1 else 'lexical-case'
+            for nested in (False, True):
+                for comp in ('key-order', 'host', 'namespace', 'classname',
+                             'keynames'):
+                    part = _variant_part(recipe, var, comp, nested)
+                    if S.build(part).to_wbem_uri(format='canonical') != c1:
+                        what = ('nested-' if nested else '') + comp
+                        break
+                else:
+                    continue
+                break
         ctx.fail('canonical-uri-depends-on-' + what,
                  'paths differing only in case/key order have different '
                  'canonical URIs: %s\n%r\n%r' % (_first_diff(c1, c2), c1,
@@ -658,20 +721,32 @@ def canonical_oracle(ctx, ex):
              classes=classes)
 
 
-def _variant_order_only(recipe, var):
-    "the key order of var with the spelling of recipe"
-    def rec(p, v):
+def _variant_part(recipe, var, comp, nested):
+    """
+    recipe with one freedom taken from var: the key order or the spelling of
+    one component, at the top level or (nested) in all reference keys.
+    """
+    def rec(p, v, depth):
         q = dict(p)
+        here = (depth > 0) == nested
+        if here and comp in ('host', 'namespace', 'classname'):
+            q[comp] = v[comp]
         if 'keys' in p:
             byname = {n.lower(): (n, kt, val) for n, kt, val in p['keys']}
+            vkeys = v['keys'] if here and comp == 'key-order' else \
+                [next(vk for vk in v['keys']
+                      if vk[0].lower() == n.lower()) for n, _kt, _v in
+                 p['keys']]
             keys = []
-            for vn, vkt, vv in v['keys']:
+            for vn, _vkt, vv in vkeys:
                 n, kt, val = byname[vn.lower()]
-                keys.append((n, kt, rec(val, vv) if kt == 'reference'
-                             else val))
+                if here and comp == 'keynames':
+                    n = vn
+                keys.append((n, kt, rec(val, vv, depth + 1)
+                             if kt == 'reference' else val))
             q['keys'] = keys
         return q
-    return rec(recipe, var)
+    return rec(recipe, var, 0)
 
 
 # ---------------------------------------------------------------------------
@@ -710,10 +785,122 @@ def ambiguous_oracle(ctx, ex):
                       if k[0].lower() != name.lower()] + [(name, 'string', s)]
     classes = ['inner:' + ikind,
                'string-reads-as:' + _kindof(want)]
-    # _check_fmt expects the mapped type; a crash inside the parser escapes
-    # to the runner as unexpected:<Type>@...
-    _check_all_formats(ctx, 'ipath', recipe)
+    plain = dict(recipe)
+    plain['keys'] = recipe['keys'][:-1] + [(name, 'string', 'x')]
+    seen = set()
+    for fmt in FORMATS:
+        # a crash inside the parser escapes to the runner as
+        # unexpected:<Type>@...
+        sym = _check_fmt('ipath', recipe, fmt)
+        if sym is None or _check_fmt('ipath', plain, fmt) is not None:
+            # (a failure that does not depend on the string is the business
+            # of the roundtrip sub-check)
+            continue
+        sig = 'string-key-that-reads-as-%s:%s' % (_kindof(want),
+                                                  _coarse(sym[0]))
+        if sig not in seen:
+            seen.add(sig)
+            ctx.fail(sig, sym[1])
     ctx.case(nontrivial=True, classes=classes)
+
+
+# ---------------------------------------------------------------------------
+# spellings: the input forms that the from_wbem_uri() docstring documents as
+# accepted (namespace type prefix, optional leading slash / colon for local
+# URIs, unquoted datetime) and the DSP0004 literal forms of the value
+# grammars it refers to (charValue in single quotes, booleanValue in any
+# case, binary/octal/hex integerValue, realValue with exponent, INF/NaN)
+# denote the same path as the URI pywbem prints.
+
+_DT1 = '20180911124613.128000+000'
+_DT2 = '00000001000000.000000:000'
+_DT3 = '2018091112****.******+000'
+
+SPELLED = [
+    # (text in the URI, expected key value: str | bool | int | float |
+    #  ('dt', str))
+    ("'a'", 'a'), ("'\\''", "'"), ("'\\\\'", '\\'), ("'\"'", '"'),
+    ("','", ','), ("'='", '='), ("'\xe4'", '\xe4'), ("' '", ' '),
+    ("'.'", '.'), ("'0'", '0'),
+    ('true', True), ('FALSE', False), ('True', True), ('fAlSe', False),
+    ('0x1F', 31), ('0X1f', 31), ('-0x10', -16), ('+0xA', 10),
+    ('101b', 5), ('-101B', -5), ('+1b', 1), ('0B', 0),
+    ('017', 15), ('-017', -15), ('+5', 5), ('0', 0), ('-0', 0),
+    ('18446744073709551615', 2 ** 64 - 1),
+    ('0xFFFFFFFFFFFFFFFF', 2 ** 64 - 1),
+    ('1.0E+16', 1e16), ('1.0e+16', 1e16), ('.5', 0.5), ('+1.5', 1.5),
+    ('-1.5e-3', -0.0015), ('1.0e5', 100000.0), ('0.0', 0.0),
+    ('INF', math.inf), ('-INF', -math.inf),
+    (_DT1, ('dt', _DT1)), (_DT2, ('dt', _DT2)), (_DT3, ('dt', _DT3)),
+    ('"' + _DT1 + '"', ('dt', _DT1)),
+    ('"a,b=\\"c\\""', 'a,b="c"'), ('"\\\\"', '\\'), ('""', ''),
+]
+
+HEADERS = ['asis', 'asis', 'http', 'https', 'cimxml-wbem', 'cimxml-wbems',
+           'HTTPS', 'noslash', 'noslash', 'nocolon']
+
+
+def spellings_strategy():
+    base = st.one_of(
+        ipath7(0, ['string', 'boolean', 'uint8', 'int']).map(
+            lambda r: ('ipath', r)),
+        ipath7(0, ['string', 'boolean', 'uint8', 'int']).map(
+            lambda r: ('ipath', r)),
+        cpath7().map(lambda r: ('cpath', r)))
+    extras = st.lists(st.integers(0, len(SPELLED) - 1), min_size=0,
+                      max_size=3)
+    return st.tuples(base, extras, st.sampled_from(HEADERS))
+
+
+def spellings_oracle(ctx, ex):
+    (kind, recipe), extras, header = ex
+    # features with their own findings in the roundtrip sub-check are
+    # simplified away
+    for _cause, fn in NEUTRALIZERS:
+        recipe = fn(recipe, 'historical')
+    if kind == 'cpath':
+        extras = []
+    classes = ['kind:' + kind]
+    with warnings.catch_warnings():
+        warnings.simplefilter('ignore')
+        e = _expected(S.build(recipe), 'standard', [0])
+        text = S.build(recipe).to_wbem_uri(format='standard')
+        for i, idx in enumerate(extras):
+            spelled, val = SPELLED[idx]
+            name = 'Zq%d' % i
+            if name in e.keybindings:
+                continue
+            text += ',%s=%s' % (name, spelled)
+            e.keybindings[name] = CIMDateTime(val[1]) \
+                if isinstance(val, tuple) else val
+            classes.append('spelled:' + ('dt' if isinstance(val, tuple)
+                                         else type(val).__name__))
+        local = recipe['host'] is None
+        if header in ('noslash', 'nocolon') and not local:
+            header = 'asis'
+        if header == 'nocolon' and recipe['namespace'] is not None:
+            header = 'noslash'
+        if header == 'noslash':
+            text = text[1:]
+        elif header == 'nocolon':
+            text = text[2:]
+        elif header != 'asis':
+            text = header + ':' + text
+        classes.append('header:' + header)
+        try:
+            q = _parser(kind)(text)
+        except ValueError as exc:
+            ctx.fail('documented-spelling-rejected:%s:%s' % (
+                header if header in ('asis', 'noslash', 'nocolon')
+                else 'namespace-type', _msgclass(exc)),
+                '%r (same path as %r) is rejected: %s' % (text, e, exc))
+            q = None
+    if q is not None:
+        d = _diff(q, e)
+        if d is not None:
+            ctx.fail('documented-spelling-parsed-differently:' + d,
+                     '%r is parsed as %r, expected %r' % (text, q, e))
+    ctx.case(nontrivial=bool(extras) or header != 'asis', classes=classes)
 
 
 # ---------------------------------------------------------------------------
@@ -871,6 +1058,8 @@ SUBCHECKS = [
     Sub('canonical', strategy=canonical_strategy, oracle=canonical_oracle,
         quick=(8, 1000), thorough=(16, 30000)),
     Sub('ambiguous', strategy=ambiguous_strategy, oracle=ambiguous_oracle,
+        quick=(8, 800), thorough=(16, 20000)),
+    Sub('spellings', strategy=spellings_strategy, oracle=spellings_oracle,
         quick=(8, 800), thorough=(16, 20000)),
     Sub('totality', strategy=totality_strategy, oracle=totality_oracle,
         quick=(16, 3000), thorough=(16, 100000)),
